@@ -329,6 +329,14 @@ fn apply(w: &mut World, op: &Op) -> Option<String> {
                                 vec![crate::script::Seg::Data(b"HTTP/1.1 204 No Content\r\n\r\n".to_vec())],
                             ];
                             let mut writtens: Vec<Vec<u8>> = vec![];
+                            // one request in three is sent by a thread on which ANOTHER request (another session's,
+                            // with fields of its own) has just failed while it was being written: nothing of that
+                            // request is part of this one (seed C16-seed12: a per-thread buffer for the request head
+                            // that is emptied only after a successful write)
+                            static BROKEN_BEFORE: std::sync::atomic::AtomicUsize = std::sync::atomic::AtomicUsize::new(0);
+                            if BROKEN_BEFORE.fetch_add(1, std::sync::atomic::Ordering::Relaxed) % 3 == 0 {
+                                crate::send::break_a_request_on_this_thread();
+                            }
                             for _send in 0..2 {
                                 let logs: Arc<Mutex<Vec<Arc<Mutex<crate::script::Log>>>>> = Arc::new(Mutex::new(vec![]));
                                 let (l2, sc) = (logs.clone(), scripts.clone());
